@@ -18,7 +18,10 @@ RULE = ('generated dataset directories over the option product (KS vs ALF names 
         'eight coordinate systems - non-negative micrometres, pitch units centred on the probe, dense centred blocks, '
         'half/quarter steps, mirrored pairs, one line, far from the origin, dyadic fractions - stored as float64 / float32 / '
         'int32 / int64; whitening matrices with exact and with inexact binary64 inverse; a pre-existing inverse file '
-        'holding the binary64 inverse, its float32 / float16 / decimal-rounded copy or a stale matrix): pairwise-style '
+        'holding the binary64 inverse, its float32 / float16 / decimal-rounded copy or a stale matrix; the environment of '
+        'the load: working directory as it is / the dataset directory / its parent / an empty sibling / another session\'s '
+        'directory with same-named raw files, params.py and arrays of other content (which must stay untouched), and paths '
+        'spelled absolutely, relative to the working directory or through a symbolic link): pairwise-style '
         'coverage of the axes first, then seeded random; every such directory satisfies the decidable well-formedness '
         'predicate wf_b of C04/Spec.v (checked by the comparator, code 3 otherwise).  A second stream of malformed '
         'directories (one well-formedness condition broken) is judged on the exception class of the error exit only.  '
@@ -334,9 +337,10 @@ def _mk(rng, **force):
     # stage 6 axes = the ENVIRONMENT of the load (the abstract result must not depend on it): the current working
     # directory of the process (left as it is / the dataset directory itself / its parent / an empty sibling / a sibling
     # 'decoy' session directory holding files with the very same names - raw files, params.py, every array - but other
-    # contents), and how the caller spells the paths (absolute, or relative to that working directory)
+    # contents), and how the caller spells the paths (absolute, relative to that working directory, or through a
+    # symbolic link to the dataset directory)
     o.setdefault('cwd', rng.choice(CWD_KINDS))
-    o.setdefault('pass', 'rel' if rng.random() < 0.25 else 'abs')
+    o.setdefault('pass', rng.choice(['abs'] * 6 + ['rel', 'rel', 'rel', 'link']))
     o.setdefault('env_seed', rng.randrange(1 << 30))
     ds['opts'] = o
     return ds
@@ -370,6 +374,7 @@ def generate(tier, rng):
         dict(route='params', raw=True, cwd='dataset', **{'pass': 'rel'}), dict(route='kwargs', raw=True, cwd='dataset', **{'pass': 'rel'}),
         dict(route='params', raw=True, cwd='parent', **{'pass': 'rel'}), dict(route='params_alt', raw=False, cwd='empty', **{'pass': 'rel'}),
         dict(route='kwargs', raw=False, cwd='decoy', write_clusters=False, curated=False, whitening='tri', write_wmi=False),
+        dict(route='params', raw=True, cwd='decoy', **{'pass': 'link'}), dict(route='kwargs', raw=True, cwd='asis', **{'pass': 'link'}),
     ]:
         for _ in range(2):
             cases.append({'kind': 'load', 'inp': _mk(rng, **force)})
@@ -494,7 +499,7 @@ class _Environment(object):
     content of a working directory this class created (it must not change either)."""
     def __init__(self, ds, d, kw):
         o = ds.get('opts', {})
-        self.kind, self.rel = o.get('cwd', 'asis'), o.get('pass', 'abs') == 'rel'
+        self.kind, self.rel, self.link = o.get('cwd', 'asis'), o.get('pass', 'abs') == 'rel', o.get('pass', 'abs') == 'link'
         self.ds, self.d, self.kw, self.seed = ds, d, kw, o.get('env_seed', 0)
         self.side, self.old = None, None
 
@@ -508,6 +513,9 @@ class _Environment(object):
         cwd = {'asis': self.old, 'dataset': self.d, 'parent': os.path.dirname(self.d)}.get(self.kind, self.side)
         os.chdir(cwd)
         sp = (lambda x: os.path.relpath(str(x), cwd)) if self.rel else (lambda x: str(x))
+        if self.link:
+            os.symlink(self.d, self.d + '.lnk')
+            sp = lambda x: self.d + '.lnk' + str(x)[len(self.d):]   # noqa
         from pathlib import Path
         kw = dict(self.kw)
         kw['dir_path'] = Path(sp(kw['dir_path']))
@@ -521,13 +529,15 @@ class _Environment(object):
 
     def __exit__(self, *exc):
         os.chdir(self.old)
+        if self.link and os.path.islink(self.d + '.lnk'):
+            os.unlink(self.d + '.lnk')
         if self.side:
             shutil.rmtree(self.side, ignore_errors=True)
         return False
 
 
 def _abstract_path(p, d):
-    p = os.path.abspath(str(p))      # (a relative path is relative to the working directory of the load)
+    p = os.path.realpath(str(p))     # (a relative path is relative to the working directory of the load; links resolved)
     return D4.DIR + p[len(d):] if (p == d or p.startswith(d + os.sep)) else p
 
 
